@@ -135,6 +135,62 @@ func c16Check(c *Ctx, s string) {
 	c.Nontrivial(s)
 }
 
+// c16Ladder: identifiers, keys and string literals that are prefixes of one
+// another, evaluated one after the other (shortest first, then longest
+// first) in one process and inside one expression: tables keyed by a
+// truncated or hashed text, and buffers sized by an earlier token, show as a
+// neighbour's value.
+func c16Ladder(c *Ctx, idx int) {
+	r := c.Rand("")
+	n := 20 + r.Intn(50)
+	var b strings.Builder
+	for i := 0; i < n; i++ {
+		if r.Chance(85) {
+			b.WriteByte(byte('a' + r.Intn(3)))
+		} else {
+			b.WriteString(gen.Pick(r, c16Alphabet))
+		}
+	}
+	full := []rune(b.String())
+	doc := map[string]any{}
+	var keys []string
+	for l := 1; l <= len(full); l++ {
+		k := string(full[:l])
+		doc[k] = "len" + fmt.Sprint(l)
+		keys = append(keys, k)
+	}
+	order := append([]string{}, keys...)
+	for i := len(keys) - 1; i >= 0; i-- {
+		order = append(order, keys[i])
+	}
+	for _, k := range order {
+		want := doc[k].(string)
+		j := jsonSpellings(k)[0]
+		c.c16Expect(j, doc, want, "C16/quoted-identifier", map[string]string{"syntax": "quoted-identifier/ladder"})
+		if ref.IsBareIdentifier(k) {
+			c.c16Expect(k, doc, want, "C16/quoted-identifier", map[string]string{"syntax": "bare-identifier/ladder"})
+		}
+		c.c16Expect(rawSpellings(k)[0], nil, k, "C16/raw-string", map[string]string{"syntax": "raw/ladder"})
+		c.c16Expect("`"+strings.ReplaceAll(j, "`", "\\`")+"`", nil, k, "C16/json-literal", map[string]string{"syntax": "json-literal/ladder"})
+	}
+	// all of them inside one expression
+	var parts []string
+	var wants []string
+	for i := 0; i < len(keys); i += 1 + r.Intn(3) {
+		parts = append(parts, jsonSpellings(keys[i])[0])
+		wants = append(wants, doc[keys[i]].(string))
+	}
+	text := "join(',', [" + strings.Join(parts, ", ") + "])"
+	c.c16Expect(text, doc, strings.Join(wants, ","), "C16/quoted-identifier", map[string]string{"syntax": "quoted-identifier/ladder-in-one-expression"})
+	hash := make([]string, len(parts))
+	for i, p := range parts {
+		hash[i] = p + ": " + p
+	}
+	text = "{" + strings.Join(hash, ", ") + "} | join(',', [" + strings.Join(parts, ", ") + "])"
+	c.c16Expect(text, doc, strings.Join(wants, ","), "C16/quoted-identifier", map[string]string{"syntax": "quoted-identifier-as-key/ladder-in-one-expression"})
+	c.Nontrivial("ladder", string(full))
+}
+
 func c16Exhaustive(c *Ctx, idx int) {
 	s := c16String(idx)
 	c16Check(c, s)
@@ -248,11 +304,12 @@ func c16Value(r *gen.R, depth int) ref.V {
 func init() {
 	Register(&Property{
 		ID:            "C16",
-		Rule:          "every string of length <= 3 (quick) / <= 4 (thorough) over a 24-symbol hostile alphabet (quotes, backslash, backtick, brackets, separators, 2-/3-/4-byte code points, U+FFFD, U+007F, U+0080, U+07FF, U+FFFF, U+10FFFF) - exhaustive - plus every code point of a boundary set and seeded strings up to 200 code points with runs of escapes and delimiters: written as a raw string (both spellings of preserved backslashes), as a JSON literal (minimal, all-\\u with surrogate pairs, Go's encoder, \\/), nested in a literal container, and as a quoted identifier (field access and multi-select key) - each must decode to exactly that string / select exactly that member; before the valid spellings of each string, malformed neighbours (valid prefix + bad escape, truncated surrogate pair, unterminated literal) are compiled in the same process so that state left behind by a rejected literal would show; generated JSON values (30-40 digit numbers, exponents, nested containers, odd keys) in random legal layouts between backticks must evaluate to themselves; direct oracle: the generator knows the answer; non-trivial = every string/value",
+		Rule:          "every string of length <= 3 (quick) / <= 4 (thorough) over a 24-symbol hostile alphabet (quotes, backslash, backtick, brackets, separators, 2-/3-/4-byte code points, U+FFFD, U+007F, U+0080, U+07FF, U+FFFF, U+10FFFF) - exhaustive - plus every code point of a boundary set and seeded strings up to 200 code points with runs of escapes and delimiters: written as a raw string (both spellings of preserved backslashes), as a JSON literal (minimal, all-\\u with surrogate pairs, Go's encoder, \\/), nested in a literal container, and as a quoted identifier (field access and multi-select key) - each must decode to exactly that string / select exactly that member; before the valid spellings of each string, malformed neighbours (valid prefix + bad escape, truncated surrogate pair, unterminated literal) are compiled in the same process so that state left behind by a rejected literal would show; ladder stream: 20-70 keys/strings that are prefixes of one another, as quoted and bare identifiers, raw strings and JSON literals, evaluated shortest-first then longest-first in one process and together inside one expression; generated JSON values (30-40 digit numbers, exponents, nested containers, odd keys) in random legal layouts between backticks must evaluate to themselves; direct oracle: the generator knows the answer; non-trivial = every string/value",
 		MinNontrivial: 5000,
 		Streams: []Stream{
 			{Name: "exhaustive", N: func(c *Ctx) int { return c16Count(c16Len(c)) }, Run: c16Exhaustive, Exhaustive: true},
 			{Name: "random", N: func(c *Ctx) int { return tierN(c, 10000, 1000000) }, Run: c16Random},
+			{Name: "ladder", N: func(c *Ctx) int { return tierN(c, 300, 20000) }, Run: c16Ladder},
 			{Name: "values", N: func(c *Ctx) int { return tierN(c, 20000, 1500000) }, Run: c16Values},
 		},
 	})
